@@ -129,6 +129,7 @@ fn run_case(cx: &CaseCtx, rep: &mut Report) {
 	cx.progress(&format!("{kind} callers={callers} tasks={tasks_mode}"));
 	let dir = cx.fresh_dir("c13");
 
+	let mut big = false;
 	// build the target and the plan
 	let built = guard::catch(|| -> Result<(Target, Vec<Vec<Call>>), String> {
 		if kind == "file" {
@@ -152,7 +153,16 @@ fn run_case(cx: &CaseCtx, rep: &mut Report) {
 		} else {
 			let pairs = if kind == "pmtiles" { gen::pmtiles_pairs() } else { gen::all_format_pairs() };
 			let opts = GenOpts { max_tiles: 600, max_level: 20, formats: pairs, unique_payloads: true, ..Default::default() };
-			let ts = gen::gen_tileset(&mut rng, &opts);
+			// every other PMTiles case is large enough for leaf directories (shared leaf cache behind an async mutex);
+			// every other versatiles case spans many blocks (shared tile-index cache)
+			let ts = if (kind == "pmtiles" || kind == "versatiles") && tasks_mode == (callers % 4 == 0) {
+				crate::mon::c01::big_tileset(&mut rng, kind)
+			} else {
+				gen::gen_tileset(&mut rng, &opts)
+			};
+			if ts.tiles.len() > 16384 {
+				big = true;
+			}
 			let path = dir.join(format!("c.{kind}"));
 			let mut src = MemSource::new(&ts);
 			guard::block_on(write_to_filename(&mut src, path.to_str().unwrap())).map_err(|e| format!("write: {e}"))?;
@@ -300,6 +310,9 @@ fn run_case(cx: &CaseCtx, rep: &mut Report) {
 			rep.evals(total);
 			rep.count(&format!("concurrent_calls_{kind}"), total);
 			rep.label("modes", &format!("{kind}/{mode}/{callers}"));
+			if big {
+				rep.count(&format!("cases_with_leaf_directories_or_many_blocks_{kind}"), 1);
+			}
 			if mi >= 2 {
 				rep.nontrivial(fnv(format!("{kind}{callers}{mode}{}", cx.case).as_bytes()));
 			}
